@@ -3,19 +3,25 @@
 translate  : translate/c20_convs.py -> lean/SteelVerif/C20/GenConvs.lean (integer conversion paths per type,
              argument-index tables of the register_fn macros); exit != 0 = broken tie.
 prove      : lake build SteelVerif.C20.Props (+ axiom audit): conversions round-trip / are sound / reject for
-             every integer type and structurally for Option/Vec/tuple/map/set, the generated wrapper guards,
-             no use of a lent reference after its call for every operation sequence, and `decide` theorems
-             over the generated tables (fail to build when `x as T` comes back).
-correspond : harness `c20` (real IntoSteelVal/FromSteelVal, Engine::register_fn, Engine::with_*_reference)
-             against `c20driver` (model M) on the same lines.
+             every integer type and for every structured type (from_sound / from_rejects against the relation Rep,
+             roundtrip_collapse, into_kernel), the generated wrapper guards for every arity, the hand-written
+             wrapper table, no use of a lent reference after its call for every operation sequence incl. host
+             functions running in another thread, and `decide` theorems over the generated tables (fail to build
+             when `x as T` comes back, an arity disappears, a wrapper reads an argument it did not check for).
+correspond : harness `c20` (real IntoSteelVal/FromSteelVal incl. f32, Engine::register_fn, BuiltInModule::register_fn
+             incl. a hand-written slice wrapper and a struct registered the way derive(Steel) does,
+             Engine::with_*_reference with copies stashed through 15 duplication paths) against `c20driver`
+             (model M) on the same lines.
 oracle     : the specification S, evaluated in this file on the REAL outputs: exact integers, in-range
              values round-trip, out-of-range / mistyped values are errors, a host function runs only with
              the declared arity and kinds and receives exactly the converted arguments, a use of a handle
              after its lending call returned is an error, no mutable use while a derived handle is live.
 """
+import math
 import os
 import random
 import re
+import struct
 import subprocess
 import sys
 
@@ -25,32 +31,44 @@ PID = "C20"
 META = {
     "ready": True,
     "category": "proof",
-    "technique": "Lean 4 proofs over an executable model of the conversion impls, the register_fn wrappers and the "
-                 "lending nursery (all values / argument lists / operation sequences, by induction) + decide theorems "
-                 "over tables regenerated from primitives.rs and register_fn.rs + line-by-line correspondence with the "
-                 "real IntoSteelVal/FromSteelVal impls, Engine::register_fn and Engine::with_mut_reference",
+    "technique": "Lean 4 proofs over an executable model of the conversion impls (integers by a regenerated path table, f32 / f64 "
+                 "on IEEE bit patterns, Option / Result / Vec / pair / HashMap / HashSet / registered struct by structural "
+                 "recursion), the register_fn wrappers and the lending nursery incl. host functions running in another thread "
+                 "(all values / argument lists / operation sequences, by induction) + decide theorems over tables regenerated "
+                 "from primitives.rs, conversions.rs, register_fn.rs (macro invocation lists AND every hand-written wrapper "
+                 "closure) and engine.rs + line-by-line correspondence with the real IntoSteelVal/FromSteelVal impls, "
+                 "Engine::register_fn, BuiltInModule::register_fn and Engine::with_mut_reference on generated inputs",
     "level_text": "Theorems of SteelVerif/C20/Props.lean over the model of crates/steel-core/src/{primitives,conversions}.rs, "
-                  "steel_vm/register_fn.rs and gc.rs unsafe_erased_pointers: for every host integer type with both impls "
-                  "from(into x) = x on its whole range, extraction returns exactly the denoted integer and rejects every "
-                  "script number outside the range (for any conversion table whose paths are checked; the table "
-                  "regenerated from primitives.rs is decided to be such on every run, so a reintroduced `as` cast stops "
-                  "the build); structural round trip for Option/Vec/tuple/HashMap/HashSet by induction on the type; "
-                  "the generated wrapper invokes the host function only after the arity check and the conversion of "
-                  "every argument succeeded and passes exactly the converted arguments (under the decidable guard that "
-                  "the macro index table is the identity, decided for every arity but 16); for EVERY sequence of "
-                  "lend / copy / drop / use / derive / end-of-call operations (any nesting, any number of stashed copies) "
-                  "in which no host function is running on a handle in another thread, no use of a lent reference "
-                  "succeeds after its lending call returned (policy as found and repaired); for references derived from "
-                  "a lent one the same is proved for the repaired freeing policy and, as found, under the decidable guard "
-                  "that no end of call left owners behind; no mutable use while a directly derived reference is live "
-                  "(unconditional), transitively under the guard that no handle was dropped under a live descendant.  Parts that do not hold as found are stated in full, proved under a "
-                  "decidable guard and refuted by a decide witness that is replayed on the real code (known findings).",
+                  "steel_vm/register_fn.rs and gc.rs unsafe_erased_pointers.  Conversions: for every host integer type with both "
+                  "impls from(into x) = x on its whole range, extraction returns exactly the denoted integer and rejects every "
+                  "script number outside the range (for any table whose paths are checked; the table regenerated from "
+                  "primitives.rs is decided to be such on every run); for EVERY type (Vec, HashMap, HashSet, Option, Result, "
+                  "pairs, registered struct, f32/f64, nested arbitrarily) from_sound: `from t v = ok x` only if v represents x "
+                  "(relation Rep = the specification), hence from_rejects: a value representing no host value of the declared "
+                  "type is an error at any depth; roundtrip_collapse: from(into x) = collapse x with no guard on Options, and "
+                  "into_kernel: two host values inject to the same script value iff they differ only in Some(falsy) vs None "
+                  "(the exact kernel of the lossy-by-design Option encoding); f32 narrowing as found is unchecked (witness, "
+                  "K20h), the checked statement is proved for a checked table.  Registered functions: the generated wrapper "
+                  "invokes the host function only after the arity check and the conversion of every argument succeeded and "
+                  "passes exactly the converted arguments — for free functions of 1..16 parameters and &SELF / &mut SELF "
+                  "methods of 2..16 arguments with the index lists of this run (identity for every arity, 16 included; every "
+                  "arity present); every hand-written wrapper closure of register_fn.rs reads exactly the arguments it checked "
+                  "for, except the two BuiltInModule wrappers of Fn(&mut SELF,&[INNER],F) (witness, K20g).  Lending: for EVERY "
+                  "sequence of lend / copy / drop / use / derive / end-of-call operations AND host functions running on a handle "
+                  "in another thread, no use of a lent reference succeeds after its lending call returned provided no call "
+                  "returns while another thread is inside a host function on one of its objects (decidable run event; its "
+                  "negation is K20f); derived references: for the freeing policy read from engine.rs; no mutable use while a "
+                  "directly derived reference is live (unconditional), transitively under the guard that no handle was dropped "
+                  "under a live descendant (K20d).  Parts that do not hold as found are stated in full, proved under a decidable "
+                  "guard and refuted by a decide witness that is replayed on the real code (known findings).",
     "level_note": "Trusted: Lean kernel (propext, Classical.choice, Quot.sound), translator regexes, harness/driver/diff. "
-                  "Model only: persistent map/set insertion is entry-wise (distinct keys), floats are bit patterns, "
-                  "Custom types are one struct, a use of a reference is atomic and happens on the lending thread "
-                  "(a reference sent to another thread and used while the call ends is outside the model), "
-                  "RegisterFnBorrowed (ReadOnlyTemporary) and wrappers beyond impl_register_fn!/impl_register_fn_self! "
-                  "are covered by the correspondence only.",
+                  "Model only: persistent map/set insertion is entry-wise (distinct keys), f64 is a bit pattern, `narrow(widen b) = b` "
+                  "for f32 is a theorem for normal numbers, zeros and infinities and a per-value decidable guard for subnormals and NaNs, Custom types are one opaque struct against any other, "
+                  "a use of a reference is atomic, the only thread operation is 'a host function of another thread runs on a "
+                  "handle from pinUse to unpinUse', the per-position conversions of the hand-written wrappers beyond the slice "
+                  "shape and RegisterFnBorrowed are covered by the table obligation only.  'Every way a script duplicates a "
+                  "reference is a copy of the model' is tied by the generated script family over 15 duplication paths "
+                  "(incl. re-entered continuations and values returned from another thread), not proved about the VM.",
 }
 
 INTS = {
@@ -60,15 +78,40 @@ INTS = {
 }
 FROM_INTS = [t for t in INTS if t != "u128"]
 ISIZE = INTS["isize"]
-PLACES = ["global", "closure", "list", "vector", "mvector", "hashmap", "box", "struct"]
+# every way a script can duplicate the value (the driver generates the scripts from the same list): variables,
+# closures, persistent and mutable containers, struct fields, nested containers, promises, parameter objects,
+# rest-argument lists, a value that travelled through another thread, a frame captured by a continuation
+PLACES = ["global", "closure", "list", "vector", "mvector", "hashmap", "box", "struct",
+          "nested", "promise", "param", "hashset", "thread", "restargs", "cont"]
+
+
+def f32_bits(x):
+    return struct.unpack(">I", struct.pack(">f", x))[0]
+
+
+def f64_bits(x):
+    return struct.unpack(">Q", struct.pack(">d", x))[0]
+
+
+def f32_of_bits(b):
+    return struct.unpack(">f", struct.pack(">I", b))[0]
+
+
+def f64_of_bits(b):
+    return struct.unpack(">d", struct.pack(">Q", b))[0]
+
+
+def f32_is_nan(b):
+    return (b >> 23) & 0xFF == 0xFF and b & 0x7FFFFF != 0
 HARNESS_TYPES = ["i8", "i16", "i32", "i64", "isize", "u8", "u16", "u32", "u64", "usize", "bool", "char", "string",
                  "unit", "f64", "rec", "opt(i32)", "opt(u64)", "opt(bool)", "opt(string)", "opt(unit)",
                  "opt(opt(i32))", "opt(vec(i32))", "vec(i32)", "vec(u8)", "vec(usize)", "vec(string)", "vec(bool)",
                  "vec(vec(i16))", "vec(opt(i32))", "vec(opt(bool))", "pair(i32,string)", "pair(u8,bool)",
                  "pair(vec(i32),opt(u8))", "pair(i32,i32)", "vec(pair(i32,i32))", "opt(pair(i32,i32))",
                  "map(string,pair(i32,i32))", "res(pair(i32,i32),string)", "pair(pair(i32,i32),vec(u8))", "map(string,i32)", "map(i32,vec(u8))", "map(u64,opt(bool))", "set(i32)",
-                 "set(string)", "set(u64)", "res(i32,string)", "res(vec(u8),i64)"]
-CALL_SHAPES = ["f:", "f:i8", "f:i16", "f:i32", "f:i64", "f:isize", "f:u8", "f:u16", "f:u32", "f:u64", "f:usize",
+                 "set(string)", "set(u64)", "res(i32,string)", "res(vec(u8),i64)",
+                 "f32", "vec(f32)", "opt(f32)", "pair(f32,f64)"]
+CALL_SHAPES = ["f:", "f:f32", "f:i8", "f:i16", "f:i32", "f:i64", "f:isize", "f:u8", "f:u16", "f:u32", "f:u64", "f:usize",
                "f:bool", "f:char", "f:string", "f:unit", "f:opt(i32)", "f:opt(bool)", "f:vec(i32)", "f:vec(u8)",
                "f:pair(i32,string)", "f:map(string,i32)", "f:set(i32)", "f:rec", "f:pair(i32,i32)",
                "f:vec(pair(i32,i32))", "f:opt(pair(i32,i32))", "f:res(pair(i32,i32),string)", "f:i32;pair(i32,i32)",
@@ -121,6 +164,8 @@ def show_hv(ty, x):
         return "u"
     if k == "f64":
         return "b%d" % x
+    if k == "f32":
+        return "g%d" % x
     if k == "rec":
         return "R%d" % x
     if k == "opt":
@@ -205,6 +250,19 @@ def spec_from(ty, v):
         return ("ok", None) if v[0] == "void" else ERR
     if k == "f64":
         return ("ok", v[1]) if v[0] == "num" else ERR
+    if k == "f32":
+        # the nearest f32 (precision is lost by design); a FINITE number beyond f32::MAX is out of range
+        if v[0] != "num":
+            return ERR
+        x = f64_of_bits(v[1])
+        if math.isnan(x):
+            return SKIP                      # NaN payloads are not specified
+        if math.isinf(x):
+            return ("ok", f32_bits(x))
+        try:
+            return ("ok", f32_bits(x))
+        except OverflowError:
+            return ERR
     if k == "rec":
         if v[0] == "custom":
             return ("ok", v[2]) if v[1] == "rec" else ERR
@@ -281,6 +339,8 @@ def spec_into(ty, x):
         return ("void",)
     if k == "f64":
         return ("num", x)
+    if k == "f32":
+        return ("num", f64_bits(f32_of_bits(x)))     # widening is exact
     if k == "rec":
         return ("custom", "rec", x)
     if k == "opt":
@@ -296,6 +356,10 @@ def spec_into(ty, x):
     if k == "res":
         return spec_into(ty[1], x[1]) if x[0] == "ok" else None     # Err(e) is raised
     raise ValueError(ty)
+
+
+def has_f32(ty):
+    return ty[0] == "f32" or any(has_f32(t) for t in ty[1:] if isinstance(t, tuple))
 
 
 def has_res(ty):
@@ -386,7 +450,8 @@ def judge_from(ty, v):
             return None
         if spec == ERR:
             if not real.startswith("err:"):
-                return ("from", None, "out-of-range or mistyped value must be an error, real " + real)
+                cls = "f32_out_of_range_becomes_infinity" if has_f32(ty) and re.search(r"g(2139095040|4286578688)\b", real) else None
+                return ("from", cls, "out-of-range or mistyped value must be an error, real " + real)
             return None
         want = "ok " + show_hv(ty, spec[1])
         if real != want:
@@ -429,6 +494,8 @@ def case_call(shape, args):
         if any(r == ERR for r in vals):
             if not (real.startswith("err:") and real.endswith("called=no")):
                 cls = "register_fn_16_args_reads_args14_twice" if len(tys) == 16 else None
+                if any(has_f32(parse_ty(t)) for t in tys) and re.search(r"g(2139095040|4286578688)\b", real):
+                    cls = "f32_out_of_range_becomes_infinity"
                 return ("call", cls, "an argument of an undeclared kind must be an error and the function must not run, real " + real)
             return None
         want = "ok recv=" + ";".join(show_hv(parse_ty(t), r[1]) for t, r in zip(tys, vals))
@@ -485,6 +552,27 @@ def judge_lending(script, real):
             copies.setdefault(t[1], set()).add(r.split()[1])
         elif op == "drop" and ok:
             copies.get(t[1], set()).discard(t[2])
+        elif op == "slice":
+            # a host function Fn(&mut SELF, &[isize], isize) called with the handle and the given arguments
+            h, extra = t[2], [parse_sv_or_none(a) for a in t[4:]]
+            verdict = None
+            if len(extra) != 2 or None in extra:
+                verdict = "err"
+            else:
+                xs, k = extra
+                good_list = xs[0] == "list" and all(spec_from(("int", "isize"), e)[0] == "ok" for e in xs[1])
+                good_k = spec_from(("int", "isize"), k)[0] == "ok"
+                verdict = "ok" if (good_list and good_k) else "err"
+            if r.startswith("panic"):
+                out.append((i, "slice", "a call with a wrong number of arguments must be an error, the wrapper panicked: `%s` -> `%s`" % (l, r)))
+                continue
+            if verdict == "err" and not (r.startswith("err:") and r.endswith("called=no")):
+                out.append((i, "slice", "wrong arity / kind must be an error and the function must not run: `%s` -> `%s`" % (l, r)))
+            if ok and h in call_of and call_of[h] in ended:
+                out.append((i, "stale", "use of %s succeeded after its lending call had returned: `%s` -> `%s`" % (h, l, r)))
+            if verdict == "ok" and h in call_of and call_of[h] not in ended and r.startswith("err:arity"):
+                out.append((i, "slice", "a call with the declared arity and kinds was rejected as an arity error: `%s` -> `%s`" % (l, r)))
+            continue
         elif op in ("get", "getro", "set", "derive"):
             h = t[1]
             if ok and h in call_of:
@@ -508,6 +596,33 @@ def judge_lending(script, real):
                 copies[nh] = {"c0"}
         if r.startswith("panic") or r.startswith("bad build"):
             out.append((i, "crash", "`%s` -> `%s`" % (l, r)))
+    return out
+
+
+def parse_sv_or_none(a):
+    try:
+        return parse_sv(a)
+    except (ValueError, IndexError):
+        return None
+
+
+def slice_scripts(rng, n):
+    """directed family for the hand-written `Fn(&mut SELF, &[INNER], F)` wrappers (Engine and BuiltInModule): every
+    argument count 0..3 x right / wrong kinds, during the call, through a stashed copy, and after the call"""
+    lists = ["list:[int:1,int:2]", "list:[]", "list:[int:1,str:61]", "vec:[int:1]", "int:3", "list:[int:9223372036854775807]"]
+    ks = ["int:5", "str:61", "big:18446744073709551616", "int:-1"]
+    out = []
+    for _ in range(n):
+        sc = ["reset", "lend rw", "copy h0 c0 %s" % rng.choice(["closure", "list", "cont", "nested"])]
+        for variant in ("eng", "mod"):
+            for c in ("c0", "c1"):
+                argsets = [[], [rng.choice(lists)], [lists[0], ks[0]], [rng.choice(lists), rng.choice(ks)],
+                           [lists[0], ks[0], "int:1"]]
+                for a in argsets:
+                    sc.append(("slice %s h0 %s %s" % (variant, c, " ".join(a))).rstrip())
+        sc += ["end", "slice eng h0 c1 %s %s" % (lists[0], ks[0]), "slice mod h0 c1 %s %s" % (lists[0], ks[0]),
+               "slice mod h0 c1 %s" % lists[0]]
+        out.append(sc)
     return out
 
 
@@ -625,8 +740,12 @@ def run_scripts(ctx, st, scripts, label):
                 cls = "derived_reference_outlives_lending_call"
             if kind == "alias" and "orphaned=true" in flags:
                 cls = "intermediate_drop_releases_ancestor_borrow"
-            if any(l.startswith("threaduse") for l in sc[:i + 1]) and "stale-root=true" in flags:
+            if any("span=true" in f for f in full[:i + 1]) and "stale-root=true" in flags:
+                # the negation of the guard `noSpan` of no_use_after_lend_threads: a call returned while another
+                # thread was inside a host function on one of its objects
                 cls = "use_in_other_thread_spans_return"
+            if kind == "slice" and sc[i].startswith("slice mod"):
+                cls = "module_slice_wrapper_arity_off_by_one"
             record_violation(st, cls, sc[:i + 1], msg, real[:i + 1], model[:i + 1])
         if not agree and not viols:
             k = next((j for j, (a, b) in enumerate(zip(real, model)) if a != b), min(len(real), len(model)))
@@ -714,6 +833,11 @@ def rand_hv(rng, ty, d=0):
         return None
     if k == "f64":
         return rng.choice([0, 0x3FF0000000000000, 0x7FF8000000000001, 0xFFF0000000000000, 0x8000000000000000, 1, rng.randrange(2**64)])
+    if k == "f32":
+        # zeros, 1.0, f32::MAX, smallest subnormal / normal, infinities, the canonical quiet NaN, random non-NaN patterns
+        b = rng.choice([0, 0x80000000, 0x3F800000, 0x7F7FFFFF, 0xFF7FFFFF, 1, 0x00800000, 0x007FFFFF, 0x7F800000, 0xFF800000,
+                        0x7FC00000, rng.randrange(2**32), rng.randrange(2**32)])
+        return 0x7FC00000 if f32_is_nan(b) else b
     if k == "rec":
         return rng.choice([0, -1, 2**63 - 1, -2**63, 7])
     if k == "opt":
@@ -761,6 +885,13 @@ SV_POOL = [("int", 0), ("int", 5), ("int", -1), ("int", 255), ("int", 256), ("in
            ("errv", ("list", [("int", 1), ("int", 2)])), ("okv", ("okv", ("int", 1))),
            ("list", [("bool", False)]), ("vec", []), ("mvec", [])]
 
+# numbers for f32: 1e300, -1e300, f32::MAX, the first number that rounds to +inf, 0.1, the smallest f64 subnormal, a number
+# that rounds to the smallest f32 subnormal, infinities, a NaN with a low payload, the largest number that rounds to f32::MAX
+F32_POOL = [("num", 0x7E37E43C8800759C), ("num", 0xFE37E43C8800759C), ("num", 0x47EFFFFFE0000000), ("num", 0x47EFFFFFF0000000),
+            ("num", 0x3FB999999999999A), ("num", 1), ("num", 0x36A0000000000001), ("num", 0x7FF0000000000000),
+            ("num", 0xFFF0000000000000), ("num", 0x7FF0000000000001), ("num", 0x47EFFFFFEFFFFFFF),
+            ("list", [("num", 0x3FF8000000000000), ("num", 0x7E37E43C8800759C)])]
+
 
 def struct_cases(rng, n):
     cases = []
@@ -770,7 +901,7 @@ def struct_cases(rng, n):
             x = rand_hv(rng, ty)
             cases.append(case_roundtrip(ts, x))
             cases.append(case_into(ts, x))
-        for v in SV_POOL:
+        for v in SV_POOL + (F32_POOL if has_f32(ty) else []):
             cases.append(case_from(ts, v))
     # directed: the Option conflation and the documented Result asymmetry
     cases += [case_roundtrip("opt(bool)", (False,)), case_roundtrip("opt(bool)", (True,)), case_roundtrip("opt(bool)", None),
@@ -782,7 +913,7 @@ def struct_cases(rng, n):
 
 def call_cases(rng, quick):
     cases = []
-    good = {"i8": ("int", -128), "i16": ("int", 32767), "i32": ("int", 5), "i64": ("lit", 2**63 - 1), "isize": ("int", -9),
+    good = {"f32": ("num", 0x3FF8000000000000), "i8": ("int", -128), "i16": ("int", 32767), "i32": ("int", 5), "i64": ("lit", 2**63 - 1), "isize": ("int", -9),
             "u8": ("int", 255), "u16": ("int", 65535), "u32": ("int", 2**32 - 1), "u64": ("lit", 2**64 - 1), "usize": ("int", 9),
             "bool": ("bool", False), "char": ("char", 955), "string": ("str", "héllo"), "unit": ("void",),
             "opt(i32)": ("int", 7), "opt(bool)": ("bool", True), "vec(i32)": ("list", [("int", 1), ("int", -2)]),
@@ -802,7 +933,7 @@ def call_cases(rng, quick):
             cases.append(case_call(shape, args))
         # every position x every value of the pool (all wrong-kind combinations for <= 2, pairwise beyond)
         if n == 1:
-            for v in SV_POOL:
+            for v in SV_POOL + (F32_POOL if "f32" in shape else []):
                 cases.append(case_call(shape, [v]))
         elif n == 2:
             pool = SV_POOL if not quick else SV_POOL[::2] + [right[0], right[1]]
@@ -833,6 +964,46 @@ def call_cases(rng, quick):
     return cases
 
 
+STRUCT_FIELDS = ["i32", "string", "vec(u8)", "opt(bool)"]
+
+
+def case_struct(args):
+    """constructor + getters of a struct registered the way #[derive(Steel)] does"""
+    line = ("mkstruct " + " ".join(show_sv(a) for a in args)).rstrip()
+
+    def judge(real):
+        if len(args) != len(STRUCT_FIELDS):
+            return None if real.startswith("err:") else ("struct", None, "wrong number of constructor arguments must be an error, real " + real)
+        vals = [spec_from(parse_ty(t), a) for t, a in zip(STRUCT_FIELDS, args)]
+        if SKIP in vals:
+            return None
+        if ERR in vals:
+            return None if real.startswith("err:") else ("struct", None, "a field value of an undeclared kind / out of range must be an error, real " + real)
+        want = "ok " + show_sv(("list", [spec_into(parse_ty(t), r[1]) for t, r in zip(STRUCT_FIELDS, vals)]))
+        if real != want:
+            return ("struct", None, "the getters must return the stored field values: expected %s, real %s" % (want, real))
+        return None
+    return Case(line, judge, True)
+
+
+def struct_field_cases(rng, n):
+    good = [("int", 5), ("str", "héllo"), ("list", [("int", 0), ("int", 255)]), ("bool", True)]
+    cases = [case_struct(good), case_struct(good[:3]), case_struct(good + [("int", 1)]), case_struct([])]
+    pools = [[("int", -2**31), ("int", 2**31 - 1), ("lit", 2**31), ("big", 5), ("str", "5"), ("num", 0x3FF0000000000000)],
+             [("str", ""), ("sym", "a"), ("int", 1), ("char", 65), ("list", [])],
+             [("list", []), ("vec", [("int", 7)]), ("list", [("int", 256)]), ("list", [("int", -1)]), ("mvec", [("int", 1)]),
+              ("list", [("int", 1), ("str", "a")]), ("str", "ab"), ("map", [(("int", 1), ("int", 1))])],
+             [("bool", False), ("bool", True), ("int", 0), ("void",), ("list", [])]]
+    for pos in range(4):
+        for v in pools[pos]:
+            a = list(good)
+            a[pos] = v
+            cases.append(case_struct(a))
+    for _ in range(n):
+        cases.append(case_struct([rng.choice(pools[i] + [good[i]]) for i in range(4)]))
+    return cases
+
+
 def parse_corpus_line(l):
     """a corpus line -> Case with the oracle S attached"""
     t = l.split()
@@ -850,6 +1021,8 @@ def parse_corpus_line(l):
             return case_fromsrc(t[1], int(t[2]), " ".join(t[3:]))
         if t[0] == "call":
             return case_call(t[1], [parse_sv(a) for a in t[2:]])
+        if t[0] == "mkstruct":
+            return case_struct([parse_sv(a) for a in t[1:]])
     except (ValueError, IndexError, KeyError):
         pass
     return Case(l, None)
@@ -897,6 +1070,9 @@ def parse_hv(ty, s, p=None):
         r = None
     elif k == "f64":
         p.eat("b")
+        r = p.int()
+    elif k == "f32":
+        p.eat("g")
         r = p.int()
     elif k == "rec":
         p.eat("R")
@@ -993,7 +1169,7 @@ def parse_sv(s, p=None):
     return r
 
 
-LEND_OPS = ("lend", "end", "copy", "drop", "get", "getro", "set", "derive", "reset", "threaduse", "threadjoin")
+LEND_OPS = ("lend", "end", "copy", "drop", "get", "getro", "set", "derive", "reset", "threaduse", "threadjoin", "slice")
 
 
 def load_corpus():
@@ -1025,6 +1201,12 @@ FINDING_TEXT = {
         "a host function running on a lent handle in another thread holds the upgraded (strong) owner pointer: when the lending "
         "call returns meanwhile, free_n drops only the nursery's own strong reference, the function keeps using the host's "
         "object, and stashed copies of the handle upgrade again while it runs",
+    "module_slice_wrapper_arity_off_by_one":
+        "BuiltInModule::register_fn / register_owned_fn for Fn(&mut SELF, &[INNER], F) check args.len() != 2 but read args[2]: "
+        "the declared three-argument call is an arity error, a two-argument call panics inside the wrapper (index out of bounds)",
+    "f32_out_of_range_becomes_infinity":
+        "FromSteelVal for f32 is `x as f32` (try_from_impl!(NumV => f64, f32)): a finite script number beyond f32::MAX reaches "
+        "the host as +inf / -inf instead of a conversion error",
     "intermediate_drop_releases_ancestor_borrow":
         "Drop for BorrowedObject clears the parent's child_borrow_flag although a reference derived from the dropped one is alive: "
         "the lent object is mutably usable while a grandchild reference into it is live",
@@ -1070,11 +1252,19 @@ def run(ctx):
     cases = int_cases(rng, 8 if quick else 400)
     cases += struct_cases(rng, 6 if quick else 300)
     cases += call_cases(rng, quick)
+    cases += struct_field_cases(rng, 30 if quick else 2000)
     run_cases(ctx, st, cases, "gen")
     nscripts = 100 if quick else 5000
     gen_scripts = gen_lending(ctx.seed, nscripts, 40 if quick else 80)
     for i in range(0, len(gen_scripts), 400):
         run_scripts(ctx, st, gen_scripts[i:i + 400], "lend%d" % i)
+    run_scripts(ctx, st, slice_scripts(rng, 6 if quick else 200), "slice")
+    places_seen = {}
+    for sc in gen_scripts:
+        for l in sc:
+            t = l.split()
+            if t and t[0] == "copy" and len(t) == 4:
+                places_seen[t[3]] = places_seen.get(t[3], 0) + 1
     ctx.log("lines=%d agree=%d disagree=%d classes=%s unknown=%d" % (
         st.evals, st.agree, len(st.disagree), {k: v[0] for k, v in st.classes.items()}, len(st.unknown)))
 
@@ -1089,7 +1279,8 @@ def run(ctx):
                 if rrc != 0 or len(real) != len(cand) or real != model:
                     return False
                 vs = judge_lending(cand, real)
-                want = {"derived_reference_outlives_lending_call": "stale", "use_in_other_thread_spans_return": "inflight"}.get(cls, "alias")
+                want = {"derived_reference_outlives_lending_call": "stale", "use_in_other_thread_spans_return": "inflight",
+                        "module_slice_wrapper_arity_off_by_one": "slice"}.get(cls, "alias")
                 return any(k == want for _, k, _ in vs)
             lines = shrink_script(lines, still)
         body = "# %s\n# %s\n# seen on %d inputs of this run; minimal witness:\n%s\n" % (cls, msg, count, "\n".join(lines))
@@ -1134,11 +1325,18 @@ def run(ctx):
                 "values near powers of two} x every integer type x {into, from lit/int/big, roundtrip, expressions evaluated "
                 "by the engine} + seeded values of every structured type of the harness menu x {into, roundtrip} + a pool of "
                 "script values of every kind x every type (from) + every registered signature shape x every arity 0..n+1 x "
-                "pool arguments per position (exhaustive for <= 2 parameters) + arities 2..16 of both wrapper macros with a "
-                "wrong kind at every position + seeded lending scripts from the grammar lend/copy-to-place/drop/get/getro/"
-                "set/derive/end with uses after the end and in a later call; non-trivial = not a plain in-isize integer "
-                "injection; distinct = different lines / scripts",
+                "pool arguments per position (exhaustive for <= 2 parameters) + a struct with four typed fields registered the "
+                "way derive(Steel) does x {right arguments, every arity error, every field x wrong kinds / boundary values, seeded "
+                "combinations} (constructor then every getter) + arities 2..16 of both wrapper macros with a "
+                "wrong kind at every position + f32 bit patterns (zeros, subnormals, f32::MAX, infinities, quiet NaN, seeded) and "
+                "f64 numbers around the f32 range (1e300, f32::MAX, the rounding boundary to +inf, subnormal boundaries) + seeded "
+                "lending scripts from the grammar lend/copy-to-place/drop/get/getro/set/derive/end with uses after the end and "
+                "in a later call, every copy drawn from the 15 duplication paths (global, closure, list, vector, mvector, hashmap, "
+                "hashset, box, struct, nested, promise, param, restargs, thread, cont) + the slice-wrapper family (Engine / "
+                "BuiltInModule x 0..3 arguments x right / wrong kinds x direct / stashed copy x during / after the call); "
+                "non-trivial = not a plain in-isize integer injection; distinct = different lines / scripts",
         "by_operation": st.by_kind,
+        "duplication_paths_exercised": places_seen,
         "real_outcomes": st.outcomes,
         "lines_agreeing_with_model": st.agree,
         "lines_disagreeing_with_model": len(st.disagree),
@@ -1147,8 +1345,9 @@ def run(ctx):
         "axioms": pr.get("axioms", {}),
         "proof_failures": ["%s: %s" % f for f in pr["failed"]],
     }
-    ctx.assumptions = ["64-bit target (isize = i64)", "uses of a lent reference are atomic and on the lending thread",
-                       "map/set insertion of distinct keys is entry-wise"]
+    ctx.assumptions = ["64-bit target (isize = i64)", "uses of a lent reference are atomic; the only cross-thread use is a host "
+                       "function of another thread running on a handle", "map/set insertion of distinct keys is entry-wise",
+                       "f32 <-> f64 casts are IEEE-754 round-to-nearest-even with x86-64 NaN quieting"]
     return ctx.finish("proof")
 
 
